@@ -23,12 +23,12 @@ fn main() {
     let root = rng::root_seed();
     let workers = util::num_workers();
     let scale: u64 = std::env::var("VERIF_SCALE").ok().and_then(|s| s.parse().ok()).unwrap_or(1);
-    let n = util::runs_override(if tier == "thorough" { 1_200_000 * scale } else { 30_000 * scale });
+    let n = util::runs_override(if tier == "thorough" { 1_200_000 * scale } else { 60_000 * scale });
     println!("C11 tier={tier} seed={root} workers={workers}");
     let start = Instant::now();
     let b = histsim::batch(root, n, workers);
     // session mode: the real rsjsonnet_front::Session over a real directory, in single-threaded children
-    let sess_n = util::runs_override(if tier == "thorough" { 60_000 * scale } else { 3_000 * scale });
+    let sess_n = util::runs_override(if tier == "thorough" { 60_000 * scale } else { 6_000 * scale });
     let sb = match sessim::batch(root, sess_n, workers) {
         Ok(b) => b,
         Err(e) => {
